@@ -15,6 +15,9 @@ SITES = [
     # Images/measurement gaussian_filter: sigma in pixels of the image it filters
     dict(gen="Resample", name="filterSigmaPixels", file=_MEA, func="_BaseMeasurement2D.gaussian_filter", select=("elt", "s / d", 0),
          params_map={"s": "sigma", "d": "d"}, params=["sigma", "d"], modes=["rat"]),
+    # Images.interpolate(sampling=...): number of grid points from the requested pixel size
+    dict(gen="Resample", name="imagesGptsFromSampling", file=_MEA, func="Images.interpolate", select=("elt", "np.ceil(l / d)", 0),
+         params_map={"l": "l", "d": "d"}, params=["l", "d"], ret="Int", modes=["rat"]),
 ]
 FINGERPRINTS = {
     "_fourier_space_bilinear_nodes_and_weight": (_MEA, "_fourier_space_bilinear_nodes_and_weight"),
